@@ -140,7 +140,8 @@ func BlockLen(j int) int {
 	return FullBlock
 }
 
-var Columns = []string{"k", "a", "b"}
+// the key column is deliberately not the first one: code that takes "the first cells" for the key is wrong
+var Columns = []string{"a", "k", "b"}
 
 // RowsOfBlock: abstract block j is a fixed key range; the keys of block j sort
 // before those of block j+1, so a table made of blocks j1 < j2 < ... has exactly
@@ -149,7 +150,7 @@ func RowsOfBlock(j int) [][]string {
 	n := BlockLen(j)
 	rows := make([][]string, n)
 	for i := 0; i < n; i++ {
-		rows[i] = []string{fmt.Sprintf("k%03d-%03d", j, i), fmt.Sprintf("v%d", j*1000+i), fmt.Sprintf("w%d", (j*7+i*13)%97)}
+		rows[i] = []string{fmt.Sprintf("v%d", j*1000+i), fmt.Sprintf("k%03d-%03d", j, i), fmt.Sprintf("w%d", (j*7+i*13)%97)}
 	}
 	return rows
 }
